@@ -143,6 +143,9 @@ func concAbortText(out *sched.Outcome) string {
 	return out.Aborted + fmt.Sprintf(" (blocked: %v)", out.Blocked)
 }
 
+// schedStuck: once a thread has blocked outside the scheduler, scheduler explorations in this process end.
+func schedStuck() bool { return sched.Stuck.Load() > 0 }
+
 // concInconclusive handles such an execution: counted, noted, the run is not exhaustive.
 func concInconclusive(c *Ctx, berr string) bool {
 	if !strings.HasPrefix(berr, "INCONCLUSIVE") {
@@ -206,7 +209,7 @@ func concExplore(c *Ctx, id string, scs []*concScenario, boundQuick, boundThorou
 			if !pass.stmt {
 				vrt.AllStatements = nil
 			}
-			stats := explore.Run(explore.Config{MaxCost: pass.bound, Deadline: c.Deadline, Shard: c.Shard, Shards: c.Shards, ShardDepth: 2, TolerateDivergence: true, MaxDivergences: 16}, func(x *explore.Exec, own bool) {
+			stats := explore.Run(explore.Config{Stop: schedStuck, MaxCost: pass.bound, Deadline: c.Deadline, Shard: c.Shard, Shards: c.Shards, ShardDepth: 2, TolerateDivergence: true, MaxDivergences: 16}, func(x *explore.Exec, own bool) {
 				out, v, berr := concBody(sc, x)
 				if !own {
 					return
